@@ -370,9 +370,9 @@ int main(int argc, char **argv) {
     size_t done = 0; bool hung = false;
     while (true) {
       struct pollfd pf = {fd[0], POLLIN, 0};
-      // CPU limit of one case: 20 s (6 s for the call sequences on one object, whose problems have at most 20 x 12 entries)
+      // CPU limit of one case: 20 s (6 s for the TS / TO cases, whose problems have at most 40 x 25 entries)
       size_t cur = idx + done;
-      int limit = cur < lines.size() && lines[cur].compare(0, 3, "TO ") == 0 ? 6000 : 20000;
+      int limit = cur < lines.size() && (lines[cur].compare(0, 3, "TO ") == 0 || lines[cur].compare(0, 3, "TS ") == 0) ? 6000 : 20000;
       int pr = poll(&pf, 1, limit);
       if (pr == 0) { hung = true; ++hangs; kill(pid, SIGKILL); break; }
       char buf[4096]; ssize_t got = read(fd[0], buf, sizeof buf);
